@@ -13,7 +13,11 @@ class NativeMaster:
     first offered; wdata.valid is high with the queue head until wdata.ready.  rdata.ready is constantly 1.
     `wait_reads`: if True the master does not offer a new command while read data is outstanding (non-pipelined)."""
 
-    def __init__(self, port, ops, name="m", wait_reads=False, flush_at_end=False, use_last=False, loop_until=0):
+    def __init__(self, port, ops, name="m", wait_reads=False, flush_at_end=False, use_last=False, loop_until=0, rready_pattern=None):
+        # rready_pattern: stall schedule for rdata.ready (None = constantly 1, the master of C01/C07); only meaningful on ports whose
+        # read data is a real stream (the user side of the clock-domain-crossing port: "any back-pressure", C08)
+        self.rready = schedule_iter(rready_pattern) if rready_pattern else None
+        self.d_rready = 1
         self.port = port
         self.ops = list(ops)
         self.base_ops = list(ops)
@@ -58,7 +62,7 @@ class NativeMaster:
                 self.w_taken.append((t, k))
             else:
                 self.w_lost.append(t)
-        if self.has_r and get(p.rdata.valid):
+        if self.has_r and get(p.rdata.valid) and self.d_rready:
             self.r_log.append((t, get(p.rdata.data)))
             self.reads_out -= 1
         if self.offered and get(p.cmd.ready):
@@ -106,7 +110,8 @@ class NativeMaster:
             else:
                 w.append((p.wdata.valid, 0))
         if self.has_r:
-            w.append((p.rdata.ready, 1))
+            self.d_rready = 1 if self.rready is None else next(self.rready)
+            w.append((p.rdata.ready, self.d_rready))
         if self.flush_at_end:
             w.append((p.flush, 1 if (self.i >= len(self.ops) and not self.offered) else 0))
         return w
